@@ -3698,7 +3698,8 @@ class DecVarSub(VarSub):
 
     def affadapt(self, rvars):
 
-        if self.vtype in ['B', 'I']:
+        vtypes = self.vtype if len(self.vtype) > 1 else self.vtype * self.size
+        if any(vtypes[i] in 'BI' for i in np.array(self.indices).flatten()):
             raise ValueError('No affine adaptation for integer variables.')
         if self.dro_model is not rvars.model.top:
             raise ValueError('Model mismatch.')
